@@ -13,14 +13,20 @@ Theorem C17_min_max_numeric : forall o a b,
   vm_binop o BLt a b = Ok (VBool (numeric_less a b)).
 Proof. exact BuiltinProofs.min_max_numeric. Qed.
 
-(* between(v, lo, hi) is true exactly when lo <= v <= hi by the language's own <=
-   (NaN excepted, for which no comparison holds) *)
+(* between(v, lo, hi) is true exactly when lo <= v <= hi by the language's own <=,
+   for all numbers, NaN included ... *)
 Theorem C17_between_iff : forall o v lo hi b1 b2,
   is_number v = true -> is_number lo = true -> is_number hi = true ->
-  (forall x, In (VFloat x) [v; lo; hi] -> PrimFloat.eqb x x = true) ->
   vm_binop o BLe lo v = Ok (VBool b1) -> vm_binop o BLe v hi = Ok (VBool b2) ->
   call_builtin o (L "between") [v; lo; hi] = Some (BVal (VBool (b1 && b2))).
 Proof. exact BuiltinProofs.between_iff. Qed.
+
+(* ... so a NaN lies in no interval, and nothing lies in an interval with a NaN bound *)
+Theorem C17_between_nan : forall o v lo hi x,
+  is_number v = true -> is_number lo = true -> is_number hi = true ->
+  In (VFloat x) [v; lo; hi] -> PrimFloat.eqb x x = false ->
+  call_builtin o (L "between") [v; lo; hi] = Some (BVal (VBool false)).
+Proof. exact BuiltinProofs.between_nan. Qed.
 
 Theorem C17_between_ints : forall o v lo hi,
   call_builtin o (L "between") [VInt v; VInt lo; VInt hi] = Some (BVal (VBool ((lo <=? v)%Z && (v <=? hi)%Z))).
